@@ -35,13 +35,39 @@ from harness.common import enc, dec, shrink_str, VERIF, LeanError
 from harness import lexmodel as LM
 
 
-class Driver(common.Driver):
-    """the shared driver pipe (a private snapshot of the binary, taken once in the main process before the worker
-    pool is forked, so that a concurrent relink of the shared binary cannot disturb a run)"""
+Driver = common.Driver      # routes `lex …` requests to the per-area executable (private copy, built before forking)
+
+CASE_BUDGET = 5.0           # seconds of wall time one implementation call may take inside a correspondence stream
 
 
-def private_driver():
-    return common.snapshot_driver()
+class CaseTimeout(Exception):
+    pass
+
+
+def _alarm(signum, frame):
+    raise CaseTimeout()
+
+
+def timed(fn, *args):
+    """run fn(*args) under a wall-clock limit (SIGALRM; the workers are single-threaded processes) so that a regex
+    gone exponential cannot hang the check: -> (result, None) or (None, 'timeout')"""
+    import signal
+    old = signal.signal(signal.SIGALRM, _alarm)
+    signal.setitimer(signal.ITIMER_REAL, CASE_BUDGET)
+    try:
+        return fn(*args), None
+    except CaseTimeout:
+        return None, "timeout"
+    finally:
+        signal.setitimer(signal.ITIMER_REAL, 0)
+        signal.signal(signal.SIGALRM, old)
+
+
+def timeout_site(s):
+    """name the site of an input on which Lexer.parse did not finish within CASE_BUDGET"""
+    if re.search(r"<%[\w.:]+(?:\s*[=,]\s*){18,}", s):
+        return "tag-regex-exponential"
+    return "lexer-does-not-finish"
 
 
 REGEN = ["Unicode", "LexerCfg"]
@@ -358,7 +384,15 @@ def check_batch(strs, opts):
         br[k] = br.get(k, 0) + n
     for s, o in zip(strs, outs):
         res["cases"] += 1
-        impl = LM.impl_lex(s)
+        impl, to = timed(LM.impl_lex, s)
+        if to:
+            site = timeout_site(s)
+            b("impl:timeout")
+            b("oracle:" + site)
+            if len(res["violations"]) < 20:
+                res["violations"].append((site, s, "Lexer(s).parse() did not finish within %.0f s (|s| = %d)" % (
+                    CASE_BUDGET, len(s)), "oracle.timeout"))
+            continue
         tree = impl.get("tree")
         try:
             d = None
@@ -395,7 +429,9 @@ def check_batch(strs, opts):
                     res["violations"].append((site, s, detail, "oracle.tiling"))
         if opts.get("render") and inert(s):
             res["render_cases"] += 1
-            r = render_oracle_inert(s)
+            r, to = timed(render_oracle_inert, s)
+            if to:
+                r = ("lexer-does-not-finish", "Template(s).render_unicode() did not finish in %.0f s" % CASE_BUDGET)
             if r:
                 b("oracle:" + r[0])
                 if len(res["violations"]) < 20:
@@ -539,7 +575,13 @@ def task_matcher(args):
     res = {"cases": 0, "branches": {}, "disagreements": [], "violations": [], "n_disagreements": 0}
     for (s, p), o in zip(cases, outs):
         res["cases"] += 1
-        impl = impl_matcher(method, s, p, tags, ctls)
+        impl, to = timed(impl_matcher, method, s, p, tags, ctls)
+        if to:
+            res["branches"]["m:%s:timeout" % name] = res["branches"].get("m:%s:timeout" % name, 0) + 1
+            if len(res["violations"]) < 5:
+                res["violations"].append((timeout_site(s), s, "match_%s at offset %d did not finish within %.0f s" % (
+                    method, p, CASE_BUDGET), "oracle.timeout"))
+            continue
         try:
             model = LM.parse_mres(o)
             d = compare_matcher(impl, model, len(tags), adjust)
@@ -589,7 +631,13 @@ def task_until(args):
         lx.match_position = p
         lx.lineno = 1 + s.count("\n", 0, p)
         try:
-            text, term = lx.parse_until_text(watch, *terms)
+            r_, to = timed(lx.parse_until_text, watch, *terms)
+            if to:
+                res["branches"]["until:timeout"] = res["branches"].get("until:timeout", 0) + 1
+                if len(res["violations"]) < 5:
+                    res["violations"].append(("lexer-does-not-finish", s, "parse_until_text did not finish", "oracle.timeout"))
+                continue
+            text, term = r_
             want = "found %d %d %d %d %s %s" % (lx.match_position, lx.lineno, lx.matched_lineno, lx.matched_charpos,
                                                 enc(text), enc(term))
             k = "until:found"
@@ -938,7 +986,9 @@ def canonical_oracle():
     """-> list of (site, source, detail) for canonical documents that do not render as documented"""
     bad = []
     for src, want in CANONICAL:
-        r = doc_oracle(src, want)
+        r, to = timed(doc_oracle, src, want)
+        if to:
+            r = ("lexer-does-not-finish", "rendering did not finish in %.0f s" % CASE_BUDGET)
         if r:
             bad.append((r[0], src, r[1]))
     return bad
@@ -960,7 +1010,9 @@ def task_documents(args):
     for d in docs:
         res["render_cases"] += 1
         src = d.s()
-        r = doc_oracle(src, "".join(d.out))
+        r, to = timed(doc_oracle, src, "".join(d.out))
+        if to:
+            r = ("lexer-does-not-finish", "rendering a well-formed document did not finish in %.0f s" % CASE_BUDGET)
         if r:
             res["branches"]["oracle:" + r[0]] = res["branches"].get("oracle:" + r[0], 0) + 1
             if len(res["violations"]) < 20:
@@ -1078,13 +1130,25 @@ for n in ns:
             pass
         t = time.process_time() - t0
         best = t if best is None else min(best, t)
-        if t > 0.5:
+        if t > 0.2:
             break
     print(n, best, flush=True)
 """
 
 
+def _cpu_seconds(pid):
+    """user+system CPU time consumed so far by the process (from /proc; None when it is gone)"""
+    try:
+        f = open("/proc/%d/stat" % pid).read()
+        rest = f[f.rindex(")") + 2:].split()
+        return (int(rest[11]) + int(rest[12])) / float(os.sysconf("SC_CLK_TCK"))
+    except Exception:
+        return None
+
+
 def task_timing(args):
+    """run one family in a child process, n growing; the budget is CPU time *of the child* per point (so a loaded
+    machine does not turn a slow wall clock into a verdict); the child is killed when a point exceeds it"""
     name, ns, budget, repo = args
     code = CHILD % (repo,)
     env = dict(os.environ)
@@ -1095,26 +1159,23 @@ def task_timing(args):
     timed_out = None
     try:
         for n in ns:
-            # a generous wall allowance per point: 3 repetitions of `budget` CPU seconds
-            deadline = time.time() + budget * 1.5 + 2
+            cpu0 = _cpu_seconds(p.pid) or 0.0
+            wall0 = time.time()
             line = b""
             while True:
-                left = deadline - time.time()
-                if left <= 0:
+                r, _, _ = select.select([p.stdout], [], [], 0.25)
+                if r:
+                    line = p.stdout.readline()
                     break
-                r, _, _ = select.select([p.stdout], [], [], left)
-                if not r:
+                cpu = _cpu_seconds(p.pid)
+                if cpu is None or cpu - cpu0 > budget + 1.0 + (2.0 if n == ns[0] else 0.0) or time.time() - wall0 > 60 * budget:
                     break
-                ch = p.stdout.readline()
-                line = ch
-                break
             if not line:
                 timed_out = n
                 break
             a, b = line.decode().split()
             pts.append((int(a), float(b)))
             if float(b) > budget:
-                timed_out = None
                 break
             if float(b) > 1.0:
                 break       # the next doubling would only burn time; the exponent rule has what it needs
@@ -1184,6 +1245,8 @@ def shrink_violation(site, case, ostream):
     from mako import exceptions
 
     def fails(x):
+        if ostream == "oracle.timeout":
+            return False
         if ostream == "oracle.tiling":
             try:
                 tree = Lexer(x).parse()
@@ -1261,7 +1324,6 @@ def classes(ctx, drv):
 def run(ctx):
     del VIOL[:]
     repo = os.environ.get("MAKO_REPO", "/repo")
-    private_driver()
     pool = multiprocessing.get_context("fork").Pool(NPROC)
     t0 = time.time()
     try:
